@@ -26,6 +26,27 @@ CHECKS = {
         note=E1_NOTE),
 }
 
+E2_NOTE = ("Trusted base: the E2 harness (operation alphabet, canonical state key, probe) and the read-only slot snapshot hook. "
+           "Histories are sequential (each operation runs to completion); ethercrab built without std, virtual clock.")
+
+CHECKS.update({
+    "C03": dict(
+        engine="E2 hist", category="model_checking", design_ref="DESIGN.md section 5 C03, section 3.3",
+        technique="explicit-state breadth-first search over operation histories of the real PDU loop with canonical-state deduplication; drain-and-reallocate probe evaluated after every transition",
+        text="In every state reachable within the depth bound (N=1 depth 16, N=2 depth 12, N=4 depth 9 quick) dropping all handles makes exactly N frames allocatable again, allocation only fails when N handles are live, and dropped created frames free their slot; every transition is executed on the real code.",
+        note=E2_NOTE),
+    "C04": dict(
+        engine="E4 enum", category="exploration", design_ref="DESIGN.md section 5 C04, section 3.5",
+        technique="bounded-exhaustive enumeration of datagram push programs x every frame size, executed on the real builders and transmit path, compared byte for byte with an independent frame encoder",
+        text="Every push program of depth <= 2 (depth 3 for the small sizes) over the stated length/override/command alphabet into frames of every size in the stated set is transmitted by the real code and must equal the independent encoding; refused and cut pushes must be reported as such.",
+        note="Trusted base: the reference encoder in /verif/mc/src/checks/c04.rs and the crate-private builder wrappers (verif feature). The alphabet is structured (boundary lengths relative to remaining room), not all lengths."),
+    "C05": dict(
+        engine="E2 hist + input alphabet", category="model_checking", design_ref="DESIGN.md section 5 C05",
+        technique="explicit-state search of reachable PDU-loop states (real code) x exhaustive structured frame alphabet (every truncation, every header byte value, length fields 0..=2047, index 0..=255) delivered to the real receive path in every state",
+        text="For every reachable state within the depth bound and every frame of the alphabet: no panic; non-EtherCAT/own-source frames ignored; a frame is accepted only into the one slot awaiting exactly that index; every other slot, and on rejection every slot except the matching awaiting one, is byte-identical before and after.",
+        note=E2_NOTE + " 'Any bytes' is decided for the structured alphabet, not all byte strings."),
+})
+
 NOT_YET = {
 }
 
@@ -70,6 +91,10 @@ def main():
         "engines": [
             {"name": "E1 sched", "path": "/verif/mc/src/e1.rs", "serves_properties": [p for p in ["C01", "C02", "C06"] if p in CHECKS],
              "kind_free_text": "controlled scheduler (stackful coroutines, one scheduling point before every shared-state access) + deviation-bounded stateless DFS over choice vectors (/verif/mc/src/core.rs) on the real PDU loop"},
+            {"name": "E2 hist", "path": "/verif/mc/src/e2.rs", "serves_properties": [p for p in ["C03", "C05"] if p in CHECKS],
+             "kind_free_text": "explicit-state BFS over operation histories; a state is the history that reaches it, every expansion rebuilds a fresh storage and replays the history on the real code; canonical state hashing"},
+            {"name": "E4 enum", "path": "/verif/mc/src/checks", "serves_properties": [p for p in ["C04", "C07", "C12", "C13", "C18", "C19"] if p in CHECKS],
+             "kind_free_text": "bounded-exhaustive enumeration of a stated finite input/program domain, each case executed on the real code and compared with an independent reference"},
         ],
         "checks": checks,
         "not_applicable": na,
